@@ -1,0 +1,395 @@
+//go:build verif
+
+// Authority contracts for package syntax (property C18: sandboxed evaluation reaches only the scope and library
+// it was given), read by /verif/engine (govc). Comments only. Vocabulary, the classification table of
+// authority-bearing dependency functions and the `propagate` declaration: /verif/specs/95_auth.spec/.smt2;
+// inference through helpers without contract: /verif/engine/authflow.go; notes: /verif/notes/w-c18.md.
+//
+// `auth` = the caller holds the full library / ambient authority. A unit WITH `requires auth` may use the
+// authority-bearing operations; its callers must hold the authority too. A unit WITHOUT the clause is verified
+// for auth = false: every call of something that requires auth is an obligation pre@<callee>#n.… that fails.
+package syntax
+
+// ================= units that HOLD the authority (entry points and the unsafe library) ========================
+// Entry-point table (who establishes `auth`): the CLI commands in cmd/arrai (eval, run, shell, test, observe,
+// serve …) call EvaluateExpr / EvaluateBundle / EvalWithScope(StdScope()) on behalf of the user who started the
+// process; they are the roots of authority and are not units here (cmd/ is outside the property's anchors).
+
+//@ func StdScope()
+//@   requires[C18] auth
+//@ func StdScope$1()
+//@   requires[C18] auth
+
+// EvaluateExpr is documented to evaluate with the DEFAULT library, i.e. the full one (today through the
+// fallback in PackageExpr.Eval): calling it is an exercise of authority.
+//@ func EvaluateExpr(ctx, path, source)
+//@   tags C18, C10
+//@   requires[C18] auth
+//@ func EvaluateBundle(bundle, args)
+//@   tags C18
+//@   requires[C18] auth
+//@   abstract body
+//@ func EvaluateBundleCtx(ctx, bundle, args)
+//@   tags C18
+//@   requires[C18] auth
+//@   abstract body
+
+// the unsafe library: //os.file, //net.http.get/post
+//@ func stdOsUnsafe()
+//@   tags C18
+//@   requires[C18] auth
+//@   abstract body
+//@ func stdOsUnsafeAttrs()
+//@   tags C18
+//@   requires[C18] auth
+//@   abstract body
+//@ func stdOsFile(ctx, v)
+//@   tags C18, C10
+//@   requires[C18] auth
+//@ func stdNet()
+//@   tags C18
+//@   requires[C18] auth
+//@   abstract body
+//@ func stdNet$1(ctx, configArg, urlArg)
+//@   tags C18
+//@   requires[C18] auth
+//@   abstract body
+//@ func stdNet$2(ctx, configArg, urlArg, bodyArg)
+//@   tags C18
+//@   requires[C18] auth
+//@   abstract body
+//@ func send(method, url, headers, body)
+//@   tags C18, C10
+//@   requires[C18] auth
+//@ func get(url, headers)
+//@   tags C18, C10
+//@   requires[C18] auth
+//@ func post(url, headers, body)
+//@   tags C18, C10
+//@   requires[C18] auth
+
+// ================= ASSUMED: bootstrap of the library from sources embedded in the binary =======================
+// mustParseBundle evaluates a bundle that is a CONSTANT of the binary (stdlibSafeArraiz / stdlibUnsafeArraiz)
+// in a fresh context whose source file system is the in-memory file system built from that bundle; its
+// afero.ReadFile calls read that memory, not the machine. mustParseExpr compiles a CONSTANT source text of the
+// distribution (fix combinators, implicit-import decoder) with NoPath; these texts contain no import expression.
+// Both would be flagged by the coarse rule "afero.ReadFile / Compile needs auth"; they are trusted NOT to need it.
+//@ func mustParseBundle(b)
+//@   tags C18
+//@   trusted
+//@ func mustParseExpr(s)
+//@   tags C18
+//@   trusted
+
+// ================= units that must work WITHOUT the authority (reachable inside a sandbox) =====================
+
+// every rel.Expr.Eval implementer of this package (those of rel: /repo/rel/verif_contracts_c18.go)
+// (receiver invariants: the wrapped expression is never nil — established by the only constructors,
+//  NewPackageExpr / NewImportExpr, whose callers in compile.go pass compiled, non-nil expressions)
+//@ func (PackageExpr).Eval(e; ctx, scope)
+//@   tags C18, C10
+//@   requires e.a != nil
+//@ func (ImportExpr).Eval(i; ctx, p2)
+//@   tags C18, C10
+//@   requires i.importedExpr != nil
+
+// //eval.value, //eval.eval, //eval.evaluator(config).eval
+//@ func evalExpr(ctx, v)
+//@   tags C18, C10
+// (config comes from parseEvalConfig, which always sets `scopes`)
+//@ func contextualEval(ctx, config, v)
+//@   tags C18, C10
+//@   requires config.scopes != nil
+//@ func parseEvalConfig(configArg)
+//@   tags C18, C10
+//@   returns (cfg, err)
+//@   ensures err == nil ==> cfg != nil && cfg.scopes != nil
+//@ func SafeStdScopeTuple$8(ctx, evalConfig, value)
+//@   tags C18, C10
+//@ func EvalWithScope(ctx, path, source, scope)
+//@   tags C18, C10
+// ASSUMED about the compiler (body not verified; NOT a C18 unit, so the authority inference looks through it):
+// a successful compilation yields an expression
+//@ func Compile(ctx, filepath, source)
+//@   trusted
+//@   returns (expr, err)
+//@   ensures err == nil ==> expr != nil
+
+// the safe library and its constructor
+//@ func SafeStdScope()
+//@   ensures[C18] c18unit: true
+//@ func SafeStdScope$1()
+//@   ensures[C18] c18unit: true
+//@ func SafeStdScopeTuple()
+//@   tags C18
+//@   abstract body
+//@ func stdDeprecated()
+//@   tags C18
+//@   abstract body
+//@ func stdDeprecatedExec()
+//@   tags C18
+//@   abstract body
+// (static unit: its implicit safety obligations — sparse arrays, nil elements — are C10 matter and would only
+//  blur the C18 verdict; both authority-bearing calls of the body are charged)
+//@ func stdDeprecatedExec$1(ctx, value)
+//@   tags C18
+//@   abstract body
+
+// ================= GENERATED (bin/govc authstubs refs syntax.SafeStdScopeTuple, files syntax/std*) ===================================
+// Every function whose value is created (closure / function reference) by the constructor of the safe library or
+// by a helper it calls: the native-function bodies registered in the safe library (and the closures they return).
+// `abstract body`: checked by the static call-graph authority analysis (engine/authflow.go); header `(*)` binds no
+// parameter names. Functions that already carry a contract of another property are not made units (the analysis
+// looks through their bodies instead).
+// ---- syntax/std.go
+// (has a contract of another property, not made a unit: syntax.FixFuncs$1)
+// (already a C18 unit: syntax.SafeStdScope$1)
+//@ func SafeStdScopeTuple$1(*)
+//@   tags C18
+//@   abstract body
+//@ func SafeStdScopeTuple$2(*)
+//@   tags C18
+//@   abstract body
+//@ func SafeStdScopeTuple$3(*)
+//@   tags C18
+//@   abstract body
+//@ func SafeStdScopeTuple$4(*)
+//@   tags C18
+//@   abstract body
+//@ func SafeStdScopeTuple$5(*)
+//@   tags C18
+//@   abstract body
+//@ func SafeStdScopeTuple$6(*)
+//@   tags C18
+//@   abstract body
+//@ func SafeStdScopeTuple$7(*)
+//@   tags C18
+//@   abstract body
+// (already a C18 unit: syntax.SafeStdScopeTuple$8)
+//@ func createNestedFunc$1(*)
+//@   tags C18
+//@   abstract body
+//@ func createFunc2$1(*)
+//@   tags C18
+//@   abstract body
+//@ func createFunc2$1$1(*)
+//@   tags C18
+//@   abstract body
+//@ func createFunc3$1(*)
+//@   tags C18
+//@   abstract body
+//@ func createFunc3$1$1(*)
+//@   tags C18
+//@   abstract body
+//@ func createFunc3$1$1$1(*)
+//@   tags C18
+//@   abstract body
+//@ func newFloatFuncAttr$1(*)
+//@   tags C18
+//@   abstract body
+//@ func parseGrammar(*)
+//@   tags C18
+//@   abstract body
+//@ func parseGrammar$1(*)
+//@   tags C18
+//@   abstract body
+//@ func parseGrammar$1$1(*)
+//@   tags C18
+//@   abstract body
+// ---- syntax/std_archive.go
+//@ func stdArchive$1(*)
+//@   tags C18
+//@   abstract body
+//@ func stdArchive$1$1(*)
+//@   tags C18
+//@   abstract body
+//@ func stdArchive$1$1$1(*)
+//@   tags C18
+//@   abstract body
+//@ func stdArchive$2(*)
+//@   tags C18
+//@   abstract body
+//@ func stdArchive$2$1(*)
+//@   tags C18
+//@   abstract body
+//@ func stdArchive$2$1$1(*)
+//@   tags C18
+//@   abstract body
+// ---- syntax/std_bits.go
+// (has a contract of another property, not made a unit: syntax.set)
+// (has a contract of another property, not made a unit: syntax.mask)
+// ---- syntax/std_deprecated.go
+// (already a C18 unit: syntax.stdDeprecatedExec$1)
+// ---- syntax/std_encoding_csv.go
+//@ func stdEncodingCSV$1(*)
+//@   tags C18
+//@   abstract body
+//@ func stdEncodingCSV$2(*)
+//@   tags C18
+//@   abstract body
+//@ func stdEncodingCSV$2$1(*)
+//@   tags C18
+//@   abstract body
+//@ func stdEncodingCSV$3(*)
+//@   tags C18
+//@   abstract body
+//@ func stdEncodingCSV$4(*)
+//@   tags C18
+//@   abstract body
+//@ func stdEncodingCSV$4$1(*)
+//@   tags C18
+//@   abstract body
+// ---- syntax/std_encoding_json.go
+//@ func stdEncodingJSON$1(*)
+//@   tags C18
+//@   abstract body
+//@ func stdEncodingJSON$2(*)
+//@   tags C18
+//@   abstract body
+//@ func stdEncodingJSON$2$1(*)
+//@   tags C18
+//@   abstract body
+//@ func stdEncodingJSON$3(*)
+//@   tags C18
+//@   abstract body
+//@ func stdEncodingJSON$4(*)
+//@   tags C18
+//@   abstract body
+//@ func stdEncodingJSON$5(*)
+//@   tags C18
+//@   abstract body
+//@ func stdEncodingJSON$5$1(*)
+//@   tags C18
+//@   abstract body
+// ---- syntax/std_encoding_xlsx.go
+//@ func stdEncodingXlsx$1(*)
+//@   tags C18
+//@   abstract body
+//@ func stdEncodingXlsx$2(*)
+//@   tags C18
+//@   abstract body
+//@ func bytesXlsxToArrai$1(*)
+//@   tags C18
+//@   abstract body
+// ---- syntax/std_encoding_yaml.go
+//@ func stdEncodingYAML$1(*)
+//@   tags C18
+//@   abstract body
+//@ func stdEncodingYAML$2(*)
+//@   tags C18
+//@   abstract body
+//@ func stdEncodingYAML$2$1(*)
+//@   tags C18
+//@   abstract body
+//@ func stdEncodingYAML$3(*)
+//@   tags C18
+//@   abstract body
+//@ func stdEncodingYAML$4(*)
+//@   tags C18
+//@   abstract body
+//@ func stdEncodingYAML$4$1(*)
+//@   tags C18
+//@   abstract body
+// ---- syntax/std_eval.go
+// (already a C18 unit: syntax.evalExpr)
+// ---- syntax/std_fmt.go
+//@ func stdFmt$1(*)
+//@   tags C18
+//@   abstract body
+// ---- syntax/std_os_nonwasm.go
+//@ func stdOsGetArgs(*)
+//@   tags C18
+//@   abstract body
+//@ func stdOsGetEnv(*)
+//@   tags C18
+//@   abstract body
+//@ func stdOsExists(*)
+//@   tags C18
+//@   abstract body
+//@ func stdOsTree(*)
+//@   tags C18
+//@   abstract body
+//@ func stdOsTree$1(*)
+//@   tags C18
+//@   abstract body
+//@ func stdOsIsATty(*)
+//@   tags C18
+//@   abstract body
+// ---- syntax/std_re.go
+//@ func init$24(*)
+//@   tags C18
+//@   abstract body
+//@ func init$24$1(*)
+//@   tags C18
+//@   abstract body
+//@ func init$24$2(*)
+//@   tags C18
+//@   abstract body
+//@ func init$24$3(*)
+//@   tags C18
+//@   abstract body
+//@ func init$24$3$1(*)
+//@   tags C18
+//@   abstract body
+// ---- syntax/std_rel.go
+//@ func stdRel$1(*)
+//@   tags C18
+//@   abstract body
+// ---- syntax/std_runtime.go
+//@ func stdRuntime$1(*)
+//@   tags C18
+//@   abstract body
+// ---- syntax/std_seq.go
+// (has a contract of another property, not made a unit: syntax.stdSeqConcat)
+// (has a contract of another property, not made a unit: syntax.stdSeqContains)
+// (has a contract of another property, not made a unit: syntax.stdSeqJoin)
+// (has a contract of another property, not made a unit: syntax.stdSeqHasPrefix)
+// (has a contract of another property, not made a unit: syntax.stdSeqHasSuffix)
+// (has a contract of another property, not made a unit: syntax.stdSeqRepeat)
+// (has a contract of another property, not made a unit: syntax.stdSeqRepeat$1)
+// (has a contract of another property, not made a unit: syntax.stdSeqSub)
+//@ func stdSeqSplit(*)
+//@   tags C18
+//@   abstract body
+// (has a contract of another property, not made a unit: syntax.stdSeqTrimPrefix)
+// (has a contract of another property, not made a unit: syntax.stdSeqTrimSuffix)
+// ---- syntax/std_str.go
+//@ func init$25(*)
+//@   tags C18
+//@   abstract body
+//@ func init$26(*)
+//@   tags C18
+//@   abstract body
+//@ func stdStr$1(*)
+//@   tags C18
+//@   abstract body
+//@ func stdStr$2(*)
+//@   tags C18
+//@   abstract body
+//@ func stdStr$3(*)
+//@   tags C18
+//@   abstract body
+// ---- syntax/std_tst.go
+//@ func createTestCompareFuncAttr$1(*)
+//@   tags C18
+//@   abstract body
+//@ func createTestCheckFuncAttr$1(*)
+//@   tags C18
+//@   abstract body
+//@ func stdTest$1(*)
+//@   tags C18
+//@   abstract body
+//@ func stdTest$2(*)
+//@   tags C18
+//@   abstract body
+//@ func stdTest$3(*)
+//@   tags C18
+//@   abstract body
+//@ func stdTest$4(*)
+//@   tags C18
+//@   abstract body
+//@ func stdTest$5(*)
+//@   tags C18
+//@   abstract body
+
+// ======== package translate/pb
